@@ -17,14 +17,15 @@ def pascalGo (toLower : Bool) : Bool → Str → Str
 /-- `RenameExt::to_pascal_case` -/
 def toPascal (s : Str) : Str := pascalGo (toAsciiUpper s == s) true s
 
-/-- `pascal[..1].to_ascii_lowercase() + &pascal[1..]`: the byte slice panics on an empty string and
-when byte 1 is not a char boundary (first char not ASCII) -/
-def lowerFirst (site : Str) : Str → Outcome Str
-  | [] => .panic site
-  | c :: rest => if c.toNat < 128 then .ok (asciiLower c :: rest) else .panic site
+/-- `first.to_ascii_lowercase().to_string() + chars.as_str()`, the empty string unchanged
+(since the `fix:` commit 0ee22df; before it the code byte-sliced `pascal[..1]` and panicked on an
+empty Pascal form and on a non-ASCII first letter) -/
+def lowerFirst : Str → Str
+  | [] => []
+  | c :: rest => asciiLower c :: rest
 
 /-- `RenameExt::to_camel_case` -/
-def toCamel (s : Str) : Outcome Str := lowerFirst s%"rename.rs:22" (toPascal s)
+def toCamel (s : Str) : Str := lowerFirst (toPascal s)
 
 /-- loop body of `to_snake_case`; `first` = `i == 0` -/
 def snakeGo (U : UnicodeOps) (allUpper : Bool) : Bool → Str → Str
@@ -48,7 +49,7 @@ def renameAllToCase (U : UnicodeOps) (original : Str) (rule : Option Str) : Outc
     if v = s%"lowercase" then .ok (U.lowerStr original)
     else if v = s%"UPPERCASE" then .ok (U.upperStr original)
     else if v = s%"PascalCase" then .ok (toPascal original)
-    else if v = s%"camelCase" then toCamel original
+    else if v = s%"camelCase" then .ok (toCamel original)
     else if v = s%"snake_case" then .ok (toSnake U original)
     else if v = s%"SCREAMING_SNAKE_CASE" then .ok (toScreamingSnake U original)
     else if v = s%"kebab-case" then .ok (toKebab U original)
